@@ -3,6 +3,7 @@ package main
 // Parsing of the //@ contract files (comment-only Go files behind build tag verif).
 
 import (
+	"crypto/sha256"
 	"fmt"
 	"go/ast"
 	"go/parser"
@@ -210,6 +211,8 @@ type Contracts struct {
 	forallNames map[string]bool
 	Files  []string
 	Sha    map[string]string
+	LockNotes []string // deviations of the repository's contract files from the locked copies
+	Locked int
 }
 
 func newContracts() *Contracts {
@@ -372,11 +375,17 @@ func firstWord(s string) string {
 }
 
 func (cs *Contracts) LoadFile(path, pkgPath string) {
-	data, err := os.ReadFile(path)
+	cs.LoadFileAs(path, path, pkgPath)
+}
+
+// LoadFileAs reads the contract text from src and records it under the name path.
+func (cs *Contracts) LoadFileAs(src, path, pkgPath string) {
+	data, err := os.ReadFile(src)
 	if err != nil {
-		fatalf("read %s: %v", path, err)
+		fatalf("read %s: %v", src, err)
 	}
 	cs.Files = append(cs.Files, path)
+	cs.Sha[path] = fmt.Sprintf("%x", sha256.Sum256(data))
 	var lines []cline
 	for i, l := range strings.Split(string(data), "\n") {
 		t := strings.TrimLeft(l, " \t")
@@ -1034,30 +1043,64 @@ func funcKey(recv *Param, name string) string {
 	return "(" + t + ")." + name
 }
 
-// LoadContracts reads every zz_verif_contracts*.go below root.
-func LoadContracts(root string, modPath string) *Contracts {
+// LoadContracts reads every zz_verif_contracts*.go below root. lockDir (may be "") holds
+// the committed copies of the contract files, laid out like root: a contract file that is
+// missing from root or differs from its locked copy is read from the lock instead, so that
+// a deleted or weakened contract cannot make a check pass; LockNotes says when that happens.
+func LoadContracts(root string, modPath string, lockDir string) *Contracts {
 	cs := newContracts()
-	var files []string
-	_ = filepath.Walk(root, func(p string, info os.FileInfo, err error) error {
-		if err != nil {
+	find := func(dir string) []string {
+		var files []string
+		_ = filepath.Walk(dir, func(p string, info os.FileInfo, err error) error {
+			if err != nil {
+				return nil
+			}
+			if info.IsDir() && (info.Name() == ".git" || info.Name() == "vendor") {
+				return filepath.SkipDir
+			}
+			if !info.IsDir() && strings.HasPrefix(info.Name(), "zz_verif_contracts") && strings.HasSuffix(info.Name(), ".go") {
+				r, _ := filepath.Rel(dir, p)
+				files = append(files, r)
+			}
 			return nil
+		})
+		return files
+	}
+	src := map[string]string{} // relative name -> file to read
+	for _, r := range find(root) {
+		src[r] = filepath.Join(root, r)
+	}
+	if lockDir != "" {
+		if st, err := os.Stat(lockDir); err == nil && st.IsDir() {
+			locked := find(lockDir)
+			for _, r := range locked {
+				lp := filepath.Join(lockDir, r)
+				ld, _ := os.ReadFile(lp)
+				rd, err := os.ReadFile(filepath.Join(root, r))
+				switch {
+				case err != nil:
+					cs.LockNotes = append(cs.LockNotes, "contract file "+r+" is missing from the repository; the locked copy "+lp+" is used")
+					src[r] = lp
+				case string(rd) != string(ld):
+					cs.LockNotes = append(cs.LockNotes, "contract file "+r+" differs from its locked copy; the locked copy "+lp+" is used (run tools/lockcontracts.sh after an intended contract change)")
+					src[r] = lp
+				}
+			}
+			cs.Locked = len(locked)
 		}
-		if info.IsDir() && (info.Name() == ".git" || info.Name() == "vendor") {
-			return filepath.SkipDir
-		}
-		if !info.IsDir() && strings.HasPrefix(info.Name(), "zz_verif_contracts") && strings.HasSuffix(info.Name(), ".go") {
-			files = append(files, p)
-		}
-		return nil
-	})
-	sort.Strings(files)
-	for _, f := range files {
-		rel, _ := filepath.Rel(root, filepath.Dir(f))
+	}
+	var rels []string
+	for r := range src {
+		rels = append(rels, r)
+	}
+	sort.Strings(rels)
+	for _, r := range rels {
+		rel := filepath.Dir(r)
 		pkg := modPath
 		if rel != "." {
 			pkg = modPath + "/" + filepath.ToSlash(rel)
 		}
-		cs.LoadFile(f, pkg)
+		cs.LoadFileAs(src[r], filepath.Join(root, r), pkg)
 	}
 	return cs
 }
